@@ -50,11 +50,27 @@ class EnumVal:
     return f'{self.cls.split(":")[-1]}.{self.name}'
 
 
-@dataclasses.dataclass(frozen=True)
+@dataclasses.dataclass(frozen=True, eq=False)
 class Ext:
-  """A named external constant/object (np.int8, BuiltinOperator.QUANTIZE...)."""
+  """A named external constant/object (np.int8, BuiltinOperator.QUANTIZE...).
+
+  One with a value is a schema constant: a plain int in the real program, so it
+  equals that int (and any other schema constant of the same value); one
+  without a value is equal to the same name only."""
   name: str
   value: Any = None
+
+  def __eq__(self, other):
+    if isinstance(other, Ext):
+      if self.value is not None and other.value is not None:
+        return self.value == other.value
+      return self.name == other.name and self.value == other.value
+    if self.value is not None and isinstance(other, int) and not isinstance(other, bool):
+      return self.value == other
+    return NotImplemented
+
+  def __hash__(self):
+    return hash(self.value) if self.value is not None else hash(self.name)
 
   def __repr__(self):
     return f'<{self.name}>' if self.value is None else f'<{self.name}={self.value}>'
